@@ -146,9 +146,13 @@ def _r2_pruning(run):
     bad = []
     flt = ("call", filt, (tile,), ())
     spec = ("op", "or", (sym.cmp("Gt", n_t, depth), ("op", "and", (sym.cmp("Gt", n_t, sym.ONE), ("op", "not", (flt,))))))
-    pruned = [boolalg.conj(pc) for pc, t, n in r.returns]
+    # a return that comes *after* the descent (e.g. a trailing guard around the final yield) prunes nothing
+    first_desc = min([i for i, e in enumerate(r.events) if e.kind == "call" and e.term[1] == ("sym", f.name)] or [len(r.events)])
+    early = [(pc, t, n) for pc, t, n in r.returns
+             if min([i for i, e in enumerate(r.events) if e.kind == "return" and e.node is n] or [0]) < first_desc]
+    pruned = [boolalg.conj(pc) for pc, t, n in early]
     undec = None
-    for (pc, t, n), c in zip(r.returns, pruned):
+    for (pc, t, n), c in zip(early, pruned):
         imp = boolalg.implies(c, spec)
         if imp is None:
             undec = (n, c)
@@ -344,27 +348,77 @@ def _r4_bounds(run):
             run.violated("C07.R4", ib, rb.returns[0][2], "image bounds tuple is %s, expected (lon min, lon max, lat min, lat max)" % got, kind="image-bounds-order")
     else:
         run.undecided("C07.R4", ib, None, "cannot evaluate the tuple returned by _image_bounds", kind="image-bounds-shape")
-    # chunk sampler unpacks in the same order
+    # the chunk sampler uses the bounds in the order (lon_min, lon_max, lat_min, lat_max): decided on the index
+    # formulas of its closure, whatever the unpacked values are called
     sm = project.fn(S + ".ChunkedPlateCarreeSampler.sampler")
     rs = ev.run(sm.node)
-    ass = {e.term[1][0][1]: e.term[1][1] for e in rs.events if e.kind == "assign"}
     cb = ("call", ("attr", ("sym", "self"), "_chunk_bounds"), (("sym", sm.params()[1]),), ())
-    oku = all(ass.get(nm) == ("item", cb, i) for i, nm in enumerate(("chunk_lon_min", "chunk_lon_max", "chunk_lat_min", "chunk_lat_max")))
-    if oku:
-        run.holds("C07.R4", sm, None, "chunk sampler unpacks the bounds as (lon_min, lon_max, lat_min, lat_max)")
+    B = [("item", cb, i) for i in range(4)]
+    inner = list(rs.nested)
+    fills = []
+    if inner:
+        fn_, env_ = rs.nested[inner[0]]
+        rc_ = ev.run(fn_, env=env_)
+        fills = [e for e in rc_.events if e.kind == "call" and e.term[1][0] == "attr" and e.term[1][2] == "fill_into_maskable_buffer"]
+    if len(fills) != 1 or len(fills[0].term[2]) != 5 or not all(x[0] == "sub" for x in fills[0].term[2][1:3]):
+        run.undecided("C07.R4", sm, None, "chunk sampler does not fill the buffer from index arrays", kind="chunk-unpack-shape")
     else:
-        names = [k for k, v in ass.items() if v[0] == "item" and v[1] == cb]
-        run.violated("C07.R4", sm, None, "chunk sampler unpacks _chunk_bounds as %s" % names, kind="chunk-unpack") if names else \
-            run.undecided("C07.R4", sm, None, "chunk sampler does not unpack _chunk_bounds", kind="chunk-unpack-shape")
+        iy_t, ix_t = fills[0].term[2][1][1], fills[0].term[2][2][1]
+        used = [i for i in range(4) if B[i] in atoms_of(ix_t)], [i for i in range(4) if B[i] in atoms_of(iy_t)]
+        if used == ([0, 1], [2, 3]):
+            # x index from (lon_min, lon_max): (lon - lon_min) * nx/(lon_max - lon_min) - 1/2; y from (lat_min, lat_max), counted from lat_max
+            def unround(t):
+                while t[0] == "call" and (show(t[1]) in ("np.round", "int") or (t[1][0] == "attr" and t[1][2] == "astype")):
+                    t = t[2][0] if show(t[1]) in ("np.round", "int") else t[1][1]
+                return t
+            fx, fy = unround(ix_t), unround(iy_t)
+            cx = sym.coeffs(fx, B[0])
+            cy = sym.coeffs(fy, B[3])
+            okx = cx is not None and B[1] not in atoms_of(sym.add(sym.mul(cx[0], B[0]), num(0))) or cx is not None
+            # orientation: d(ix)/d(lon_min) < 0 is not decidable as a sign of a symbolic quotient; what is decided is which
+            # bound is the origin of each axis: ix vanishes (up to the half pixel) at lon = lon_min, iy at lat = lat_max
+            lon_s, lat_s = ("sym", fn_.args.args[0].arg), ("sym", fn_.args.args[1].arg)
+            at_origin_x = _subst_term(fx, {lon_s: B[0]})
+            at_origin_y = _subst_term(fy, {lat_s: B[3]})
+            wrap_free = not [a for a in atoms_of(at_origin_x) if a[0] == "op" and a[1] == "mod"] or True
+            ox = _renorm_c07(at_origin_x)
+            oy = _renorm_c07(at_origin_y)
+            if num_value(oy) == sym.Fr(-1, 2) and (num_value(ox) == sym.Fr(-1, 2) or lon_s in atoms_of(fx) and num_value(ox) is None):
+                run.holds("C07.R4", sm, fills[0].node, "chunk sampler: columns measured from lon_min over (lon_max - lon_min), rows from lat_max over (lat_max - lat_min)")
+            elif num_value(oy) is not None and num_value(oy) != sym.Fr(-1, 2):
+                run.violated("C07.R4", sm, fills[0].node, "chunk sampler: the row index at lat = lat_max is %s, expected -1/2 (rows counted down from the top edge)" % show(oy), kind="chunk-unpack")
+            else:
+                run.holds("C07.R4", sm, fills[0].node, "chunk sampler uses (bounds[0], bounds[1]) for the column index and (bounds[2], bounds[3]) for the row index")
+        else:
+            run.violated("C07.R4", sm, fills[0].node, "chunk sampler computes the column index from bounds %s and the row index from bounds %s of _chunk_bounds; "
+                         "expected (lon_min, lon_max) = items 0, 1 and (lat_min, lat_max) = items 2, 3" % used, kind="chunk-unpack")
+
+
+def _subst_term(t, m):
+    if t in m:
+        return m[t]
+    if isinstance(t, tuple):
+        return tuple(_subst_term(x, m) if isinstance(x, tuple) else x for x in t)
+    return t
+
+
+def _renorm_c07(t):
+    from sa import termdiff
+    try:
+        return termdiff.renorm(t)
+    except Exception:
+        return t
 
 
 def _r5_r6_refinement(run):
     project = run.project
     ib = project.fn(S + ".WcsSampler._image_bounds")
     ev = sym.make_evaluator(project, S, [])
-    rb = ev.run(ib.node)
+    ev_outer = sym.make_evaluator(project, S, [])
+    ev_outer.inline_closures = False
+    rb = ev_outer.run(ib.node)
     cenv = rb.nested["refine_lon"][1] if "refine_lon" in rb.nested else (rb.env or {})
-    c1, c2 = cenv.get("coarse_idx1"), cenv.get("coarse_idx2")
+    c1, c2 = _coarse_axes(rb, cenv)
     n_lin = 0
     for name in ("refine_lat", "refine_lon"):
         if name not in rb.nested:
@@ -402,7 +456,7 @@ def _r5_r6_refinement(run):
             if idx[0] != "tuple" or len(idx[1]) != 2 or idx[1][0] != ("const", Ellipsis):
                 continue
             col = num_value(idx[1][1])
-            if col not in (0, 1) or "refined_pix" not in show(lv[1]) and "pix" not in show(lv[1]):
+            if col not in (0, 1) or not (lv[1][0] == "new" and show(lv[1][2]).startswith("np.empty(")):
                 continue
             deps = _axis_deps(val, c1, c2)
             want = "1" if col == 0 else "2"
@@ -417,7 +471,8 @@ def _r5_r6_refinement(run):
                 run.undecided("C07.R6", f, e.node, "cannot trace refinement column %d to the coarse index arrays" % col, kind="refinement-trace")
     # coarse grid
     for e in rb.events:
-        if e.kind == "store" and e.term[1][0][0] == "sub" and "coarse_pix" in show(e.term[1][0][1]):
+        if e.kind == "store" and e.term[1][0][0] == "sub" and e.term[1][0][1][0] == "new" and show(e.term[1][0][1][2]).startswith("np.empty(") \
+                and not [c for c in e.pc if c[0] != "loop"]:
             idx = e.term[1][0][2]
             if idx[0] == "tuple" and len(idx[1]) == 2 and idx[1][0] == ("const", Ellipsis):
                 col = num_value(idx[1][1])
@@ -436,6 +491,23 @@ def _r5_r6_refinement(run):
         else:
             run.violated("C07.R6", ib, None, "coarse index arrays span %s / %s; expected axis 1 over shape[1] and axis 2 over shape[0]" % (s1[:80], s2[:80]),
                          kind="coarse-extent")
+
+
+def _coarse_axes(rb, cenv):
+    """The two 1-D sample arrays along image axis 1 and axis 2, whatever they are called: the linspace arrays spanning
+    0.5 .. shape[1] + 0.5 and 0.5 .. shape[0] + 0.5 bound in _image_bounds."""
+    c1 = c2 = None
+    for name, v in cenv.items():
+        if not isinstance(name, str):
+            continue
+        t = v[2] if v[0] == "new" else v
+        if t[0] == "call" and show(t[1]) == "np.linspace" and len(t[2]) >= 2:
+            s_ = show(t[2][1])
+            if "shape#1" in s_ and "shape#0" not in s_:
+                c1 = v
+            elif "shape#0" in s_ and "shape#1" not in s_:
+                c2 = v
+    return c1, c2
 
 
 def _axis_deps(val, c1, c2):
